@@ -227,6 +227,7 @@ impl Ctx {
         ckalloc::take_events();
         ckalloc::refuse_in(None);
         ckalloc::set_byte_cap(ckalloc::HARD_CAP);
+        ckalloc::set_current_id(0);
         if let Some(p) = &self.crumb {
             let _ = std::fs::write(p, format!("{} {} {}/{} {}\n", self.prop, idx, self.shard, self.nshards, self.seed));
         }
